@@ -5,6 +5,8 @@
  *   --big 1       window 2^17 shapes with > 64 KiB matches
  */
 #include "common.h"
+#define ZDICT_STATIC_LINKING_ONLY
+#include "zdict.h"
 
 #define CAP (2u << 20)
 static u8 *g_src, *g_dst, *g_out, *g_scratch;
@@ -130,7 +132,7 @@ static void body(void) {
     vx_label("entry=%d %s | %s n=%zu", entry, pdesc, sdesc, n);
 
     /* ---- compress ---- */
-    size_t bound = ZSTD_compressBound(n), csz; const u8* dict = NULL; size_t dictLen = 0;
+    size_t bound = ZSTD_compressBound(n), csz; const u8* dict = NULL; size_t dictLen = 0; unsigned wantID = 0;
     ZSTD_CCtx* cctx = ZSTD_createCCtx();
     if (entry == 0) {
         size_t e = pvec_apply(cctx, &p);
@@ -148,12 +150,17 @@ static void body(void) {
     else if (entry == 4) csz = ZSTD_compress_usingDict(cctx, g_dst, bound, S, n, NULL, 0, p.level);
     else {
         fill_text(g_dict, sizeof g_dict, 21); dict = g_dict; dictLen = sizeof g_dict;
+        /* dictionary identity: raw content (no ID) or a structured dictionary whose ID sits on either side of the 1 / 2 / 4-byte field boundaries */
+        {   static const unsigned IDS[] = {0, 255, 256, 65535, 65536}; static u8 sd[5][4096]; static size_t sl[5]; int idc = vx_choose(5);
+            if (idc) { if (!sl[idc]) { static u8 smp[8192]; size_t ss[8]; fill_text(smp, sizeof smp, 33); for (int k = 0; k < 8; k++) ss[k] = 1024; ZDICT_params_t zp; memset(&zp, 0, sizeof zp); zp.dictID = IDS[idc]; zp.compressionLevel = 3;
+                         size_t r = ZDICT_finalizeDictionary(sd[idc], sizeof sd[idc], g_dict, sizeof g_dict, smp, ss, 8, zp); sl[idc] = ZDICT_isError(r) ? 0 : r; }
+                       if (sl[idc]) { dict = sd[idc]; dictLen = sl[idc]; wantID = IDS[idc]; } } }
         ZSTD_CDict* cd = NULL;
-        if (entry == 5) { cd = ZSTD_createCDict(g_dict, sizeof g_dict, p.level); csz = ZSTD_compress_usingCDict(cctx, g_dst, bound, S, n, cd); }
+        if (entry == 5) { cd = ZSTD_createCDict(dict, dictLen, p.level); csz = ZSTD_compress_usingCDict(cctx, g_dst, bound, S, n, cd); }
         else {
             size_t e = pvec_apply(cctx, &p);
             if (ZSTD_isError(e)) { vx_fail("setParameter rejected a vector of in-range values: %s", ZSTD_getErrorName(e)); ZSTD_freeCCtx(cctx); return; }
-            if (entry == 6) { cd = ZSTD_createCDict(g_dict, sizeof g_dict, p.strategy ? 3 : p.level); e = ZSTD_CCtx_refCDict(cctx, cd); } else e = ZSTD_CCtx_loadDictionary(cctx, g_dict, sizeof g_dict);
+            if (entry == 6) { cd = ZSTD_createCDict(dict, dictLen, p.strategy ? 3 : p.level); e = ZSTD_CCtx_refCDict(cctx, cd); } else e = ZSTD_CCtx_loadDictionary(cctx, dict, dictLen);
             csz = ZSTD_isError(e) ? e : ZSTD_compress2(cctx, g_dst, bound, S, n);
         }
         ZSTD_freeCDict(cd);
@@ -162,6 +169,7 @@ static void body(void) {
     if (ZSTD_isError(csz)) { vx_fail("compression into ZSTD_compressBound failed: %s", ZSTD_getErrorName(csz)); return; }
 
     /* ---- decode ---- */
+    if (dict && !p.magicless && ZSTD_getDictID_fromFrame(g_dst, csz) != wantID) { vx_fail("frame carries dictionary ID %u, the dictionary used has %u", ZSTD_getDictID_fromFrame(g_dst, csz), wantID); return; }
     if (!g_conf) {
         ZSTD_DCtx* d = ZSTD_createDCtx();
         if (p.magicless) ZSTD_DCtx_setParameter(d, ZSTD_d_format, ZSTD_f_zstd1_magicless);
@@ -182,7 +190,7 @@ static void body(void) {
         refcheck_t c; rc_init(&c);
         c.interop = 1; c.magicless = p.magicless; c.maxBlockSize = (entry == 0 || entry >= 6) ? (size_t)p.maxBlockSize : 0;
         if (entry <= 1 || entry >= 6) { c.expectChecksum = p.checksum; c.expectFCS = p.contentSize; } else { c.expectChecksum = 0; c.expectFCS = 1; }
-        c.expectDictID = 0;
+        c.expectDictID = (long)wantID;
         if (ref_check(&c, g_dst, csz, dict, dictLen, S, n, g_scratch, CAP)) { vx_fail("conformance: %s", c.err); return; }
         if ((entry <= 1 || entry >= 6) && p.windowLog && c.windowSize > ((size_t)1 << p.windowLog)) { vx_fail("conformance: declared window %zu larger than requested 2^%d", c.windowSize, p.windowLog); return; }
         vx_obs_u64(vx_hash(g_dst, csz));
